@@ -5,7 +5,7 @@
 (* bare policy object):                                                        *)
 (*   [ id, prm |-> [kind, cap, pfc, mxf, thr, bm], rcap (capacity the policy     *)
 (*     object reports), W (flow weights), P, F (per item: priority/deadline,     *)
-(*     flow), lim0, idle, order, cnt, sink (which clauses apply), hassc, sc      *)
+(*     flow), lim0, idle, order, cnt, sink, allof (which clauses apply), hassc, sc      *)
 (*     (scenario for the QueuePipe machine), fin |-> <<accepted, completed>>,    *)
 (*     log |-> << <<op, item, t, active, limit, depth, x, c>>, ... >> ]          *)
 (*   op: psh (push accepted)  rej (push refused)  pop / pop0 (pop -> item/None)  *)
@@ -17,13 +17,15 @@
 (*   publishes (queue.stats_dropped + requests_rejected/reneged/... + x).        *)
 (*                                                                             *)
 (* Per trace two judgements, printed on one line                                 *)
-(*   <<"V", id, verdict, pos, mverdict, mpos>>                                   *)
+(*   <<"V", id, verdict, pos, mverdict, mpos, qverdict, qpos>>                   *)
 (* verdict  = "ACCEPT" or the first "PROP:<clause>" of QueueContract that is     *)
 (*            false on the OBSERVED execution (only this can become a VIOLATION) *)
 (* mverdict = "OK" or the first "MODEL:<what>" where the observation differs     *)
-(*            from the implementation-shaped models (Policies machine stepped    *)
-(*            along the observed calls; QueuePipe machine run on the scenario    *)
-(*            and compared record by record) = drift.                            *)
+(*            from the Policies machine stepped along the observed calls, or a   *)
+(*            published counter differs from the observed count = drift.         *)
+(* qverdict = "OK" or the first "MODEL:pipe_..." where the observed log differs   *)
+(*            from the log of the QueuePipe machine run on the same scenario     *)
+(*            (state-checked comparison, record by record) = drift.              *)
 (* The spec is total: every trace gets exactly one line.                         *)
 EXTENDS QueuePipe, Policies, Json, IOUtils
 
@@ -34,8 +36,8 @@ VARIABLES ti,       \* trace index
           ph,       \* "run": the QueuePipe machine is running on the scenario; "walk": reading the log
           l,        \* position in the observed log
           w,        \* walker state (contract ghost + policy model)
-          verdict, vpos, mver, mpos
-tvars == <<vars, ti, ph, l, w, verdict, vpos, mver, mpos>>
+          verdict, vpos, mver, mpos, qver, qpos
+tvars == <<vars, ti, ph, l, w, verdict, vpos, mver, mpos, qver, qpos>>
 
 EmptySc == [wk |-> "server", lim |-> 1, cap |-> Inf, pol |-> "fifo", arr |-> <<>>, sh |-> [t |-> 0, l |-> 0]]
 ScOf(T) == IF T.hassc = 1 THEN T.sc ELSE EmptySc
@@ -52,7 +54,7 @@ T1 == IF NT = 0 THEN Dummy ELSE Traces[1]
 TInit ==
     /\ InitFor(ScOf(T1))
     /\ ti = 1 /\ ph = "run" /\ l = 1 /\ w = W0(T1)
-    /\ verdict = "" /\ vpos = 0 /\ mver = "" /\ mpos = 0
+    /\ verdict = "" /\ vpos = 0 /\ mver = "" /\ mpos = 0 /\ qver = "" /\ qpos = 0
 
 \* ---------------------------------------------------------------------------
 \* one observed record
@@ -143,7 +145,8 @@ Apply(T, ww, r) ==
         IN Out([w0 EXCEPT !.st[i] = "rejected", !.nrej = @ + 1, !.oh = Remove(@, i)], pv, "")
       [] op = "req" ->
         LET pv == IF ~LegalMove(ww.st[i], "waiting") \/ ww.st[i] = "new" THEN "PROP:requeued_item_not_in_transit" ELSE ""
-        IN Out([w0 EXCEPT !.st[i] = "waiting", !.oh = Append(Remove(@, i), i)], pv, "")
+        IN Out([w0 EXCEPT !.st[i] = "waiting", !.oh = Append(Remove(@, i), i),
+                          !.ps = [@ EXCEPT !.h = Append(Remove(@, i), i)]], pv, "")
       [] op = "fin" ->
         LET pv == IF ww.st[i] # "inservice" THEN "PROP:completed_twice_or_never_started" ELSE ""
             mv == IF a # ww.nS - 1 THEN "MODEL:active_count" ELSE ""
@@ -164,7 +167,7 @@ Apply(T, ww, r) ==
                          IF T.cnt = 1 /\ ~Counted(ww.nrej, c) THEN "PROP:reject_not_counted" ELSE "")
             mv == IF T.fin[1] # ww.enq \/ T.fin[2] # Cardinality({ j \in DOMAIN ww.st : ww.st[j] = "done" })
                   THEN "MODEL:published_counters"
-                  ELSE IF quiet /\ \E j \in DOMAIN ww.st : ww.st[j] = "new" THEN "MODEL:item_never_offered" ELSE ""
+                  ELSE IF quiet /\ T.allof = 1 /\ \E j \in DOMAIN ww.st : ww.st[j] = "new" THEN "MODEL:item_never_offered" ELSE ""
         IN Out(w0, pv, mv)
       [] OTHER -> Out(w0, "", "MODEL:unknown_record")
 
@@ -183,9 +186,10 @@ PipeDiff(T, r, k) ==
 Comparable(T, n) == Cardinality({ k \in 1..n : T.log[k][1] \notin {"snk", "end"} })
 
 Finish(T) ==
-    /\ PrintT(<<"V", T.id, IF verdict = "" THEN "ACCEPT" ELSE verdict, vpos, IF mver = "" THEN "OK" ELSE mver, mpos>>)
+    /\ PrintT(<<"V", T.id, IF verdict = "" THEN "ACCEPT" ELSE verdict, vpos, IF mver = "" THEN "OK" ELSE mver, mpos,
+                IF qver = "" THEN "OK" ELSE qver, qpos>>)
     /\ ti' = ti + 1 /\ ph' = "run" /\ l' = 1
-    /\ verdict' = "" /\ vpos' = 0 /\ mver' = "" /\ mpos' = 0
+    /\ verdict' = "" /\ vpos' = 0 /\ mver' = "" /\ mpos' = 0 /\ qver' = "" /\ qpos' = 0
     /\ IF ti < NT THEN LoadFor(ScOf(Traces[ti + 1])) /\ w' = W0(Traces[ti + 1])
        ELSE UNCHANGED vars /\ w' = w
 
@@ -193,22 +197,24 @@ TNext ==
     /\ ti <= NT
     /\ LET T == Traces[ti] IN
        IF ph = "run" THEN
-            IF Runnable THEN Step /\ UNCHANGED <<ti, ph, l, w, verdict, vpos, mver, mpos>>
-            ELSE ph' = "walk" /\ UNCHANGED <<vars, ti, l, w, verdict, vpos, mver, mpos>>
+            IF Runnable THEN Step /\ UNCHANGED <<ti, ph, l, w, verdict, vpos, mver, mpos, qver, qpos>>
+            ELSE ph' = "walk" /\ UNCHANGED <<vars, ti, l, w, verdict, vpos, mver, mpos, qver, qpos>>
        ELSE IF verdict # "" \/ l > Len(T.log) THEN
             \* after the last record the machine log must be used up as well
-            IF verdict = "" /\ mver = "" /\ T.hassc = 1 /\ Comparable(T, Len(T.log)) # Len(log)
-            THEN /\ mver' = "MODEL:pipe_log_longer" /\ mpos' = l
-                 /\ UNCHANGED <<vars, ti, ph, l, w, verdict, vpos>>
+            IF verdict = "" /\ qver = "" /\ T.hassc = 1 /\ Comparable(T, Len(T.log)) # Len(log)
+            THEN /\ qver' = "MODEL:pipe_log_longer" /\ qpos' = l
+                 /\ UNCHANGED <<vars, ti, ph, l, w, verdict, vpos, mver, mpos>>
             ELSE Finish(T)
        ELSE LET r == T.log[l]
                 pre == IdleBefore(T, w, r)
                 o == Apply(T, w, r)
                 pv == First(pre, o.pv)
-                mv == First(o.mv, PipeDiff(T, r, Comparable(T, l)))
+                mv == o.mv
+                qv == PipeDiff(T, r, Comparable(T, l))
             IN /\ w' = o.w
                /\ verdict' = pv /\ vpos' = IF pv # "" THEN l ELSE 0
                /\ mver' = First(mver, mv) /\ mpos' = IF mver = "" /\ mv # "" THEN l ELSE mpos
+               /\ qver' = First(qver, qv) /\ qpos' = IF qver = "" /\ qv # "" THEN l ELSE qpos
                /\ l' = l + 1
                /\ UNCHANGED <<vars, ti, ph>>
 
